@@ -6,7 +6,7 @@ that object's state.  Not part of the proved core.
     → (<status> ((<name> <subject> <old> <new> <getter-now>) ...) (set (<field> <val>) ...))
 
 `<val>` = `none` | integer | `(l <int> ...)`; an absent payload slot prints `-`.  The last argument
-lists the notification names the harness compares; they must be exactly the names the entry posts.
+lists the notification names the harness compares; they must be names the entry posts.
 -/
 import DefconModel.Util.SExp
 import DefconModel.SettersCatalogue
@@ -63,11 +63,12 @@ def driverStep (u : Unit) (line : SExp) : Unit × SExp :=
     match findEntry id, args.mapM parseVal, fields.mapM parseField, names.mapM asStr? with
     | some e, some as, some fs, some ns =>
       let mine := entryNames e
-      if !(ns.all (fun n => n ∈ mine) && mine.all (fun n => n ∈ ns)) then (u, .atom "bad-names")
+      if !(ns.all (fun n => n ∈ mine)) then (u, .atom "bad-names")
       else
         let env : Env := { args := as, key := key }
         let r := run env (init fs) e.body
-        (u, .list [encStatus r.status, .list (r.evs.map (encEv env)), encStore r.store])
+        (u, .list [encStatus r.status, .list ((r.evs.filter (fun ev => ev.name ∈ ns)).map (encEv env)),
+                   encStore r.store])
     | _, _, _, _ => (u, .atom "bad-op")
   | .list [.atom "skip"] => (u, .list [.atom "skip"])
   | _ => (u, .atom "bad-op")
